@@ -245,7 +245,9 @@ class Negotiated:
         if self.received_open.router_id == RouterID('0.0.0.0'):
             return (2, 3, '0.0.0.0 is an invalid router_id')
 
-        if self.received_open.asn == neighbor.session.local_as:
+        # the peer's true AS (self.peer_as), not the 2-byte field of its OPEN which carries AS_TRANS for a
+        # 4-byte AS: the collision went unnoticed on an IBGP session inside a 4-byte AS
+        if self.peer_as == neighbor.session.local_as:
             # router-id must be unique within an ASN
             if self.received_open.router_id == neighbor.session.router_id:
                 return (
